@@ -1461,6 +1461,13 @@ class Interp:
                 if last == 'isfinite':
                     return x.with_(poly=alg.b_not(alg.mk_ind('isinf', x.poly)) * alg.b_not(alg.mk_ind('isnan', x.poly)), unit=None, dt=None)
                 return x.with_(poly=alg.mk_fn(last, P(x.poly)), dt='f' if last == 'exp' else x.dt)
+            if last in ('isin', 'in1d') and len(args) == 2 and isinstance(args[1], (list, tuple)) and args[1] and all(_is_pynum(x_) for x_ in args[1]):
+                a = self._as_arr(args[0])
+                if isinstance(a, Arr):
+                    p_ = Poly()
+                    for c_ in sorted(set(args[1])):
+                        p_ = alg.b_or(p_, alg.mk_ind('==0', a.poly - num(c_)))
+                    return Arr(a.dims, p_, a.mask)
             if last in ('isin', 'in1d') and len(args) == 2:
                 a, b = self._as_arr(args[0]), self._as_arr(args[1])
                 if isinstance(a, Arr) and isinstance(b, Arr) and b.ndim == 1:
@@ -1606,6 +1613,11 @@ class Interp:
                 if isinstance(base, Arr) and isinstance(fv, Arr) and fv.ndim == 0:
                     return Arr(base.dims, fv.poly, unit=fv.unit if fv.unit is not None else num(1), fresh=True, dt=base.dt if 'dtype' in kw else fv.dt)
                 return Unk('np.%s' % last, e)
+            if last == 'outer' and len(args) == 2 and not kw:
+                a_, b_ = self._as_arr(args[0]), self._as_arr(args[1])
+                if isinstance(a_, Arr) and isinstance(b_, Arr) and a_.ndim == 1 and b_.ndim == 1 and a_.dims[0] != b_.dims[0] and a_.mask is None and b_.mask is None:
+                    return Arr((a_.dims[0], b_.dims[0]), a_.poly * b_.poly, unit=_umul(a_.unit, b_.unit))
+                return Unk('np.outer', e)
             if last == 'dot' and len(args) == 2 and not kw:
                 # contraction of the last axis of a with the first axis of b (1-D . 1-D, 2-D . 1-D, 1-D . 2-D, 2-D . 2-D)
                 a_, b_ = self._as_arr(args[0]), self._as_arr(args[1])
@@ -1913,6 +1925,9 @@ class Interp:
                 if recv.conv and recv.unit is not None and not (recv.unit == uu.poly):
                     r_.conv = recv.conv + (('to', alg.show(recv.unit, 30), alg.show(uu.poly, 30), '', getattr(e, 'lineno', 0)),)
                 return r_
+            if name == 'to_value':
+                conv_ = self.method(recv, 'to', args, kw, e, mod) if args else recv
+                return self.attribute(ast.Attribute(value=ast.Name(id='_v', ctx=ast.Load()), attr='value', ctx=ast.Load()), {'__module__': mod, '_v': conv_}, mod) if isinstance(conv_, Arr) else conv_
             if name == 'astype':
                 t_ = args[0] if args else kw.get('dtype')
                 tn = t_.name if isinstance(t_, Marker) else (t_.__name__ if isinstance(t_, type) else (t_ if isinstance(t_, str) else ''))
@@ -2259,7 +2274,7 @@ def _is_boolean(p):
         return p.const_value() in (0, 1)
     for m in p.t:
         for a, _ in m:
-            if a[0] != 'ind':
+            if a[0] != 'ind' and not (a[0] == 'fn' and a[1] in ('any', 'all')):
                 return False
     return True
 
